@@ -29,6 +29,7 @@ type world struct {
 	ticks  int
 	mapIdx int
 	chunkI int
+	tempN  int
 	clockN int64
 	faults map[int][]int // step -> indices into spec.Faults
 	fired  []bool
